@@ -134,10 +134,84 @@ def identity_oracle(case, rng, f, L, ineq, eq, gamma):
     return None
 
 
+def audit_case(ctx, rng, c, pinned=None):
+    import sageopt as so
+    n = c['f']['n']
+    f = st.build(c['f'])
+    gts = [st.build(g) for g in c['gts']]
+    eqs = [st.build(g) for g in c['eqs']]
+    X = None
+    try:
+        if c['infer'] and (gts or eqs):
+            X = so.infer_domain(f, gts, eqs)
+        vals = {}
+        for form in ('primal', 'dual'):
+            kw = {'p': c['p'], 'q': c['q'], 'ell': c['ell']}
+            if form == 'dual':
+                kw['slacks'] = c['slacks']
+            # the Lagrangian the Problem exposes (metadata['lagrangian'], where users and solution recovery read it) satisfies the
+            # identity with the builder's own gamma and multipliers (captured by wrapping make_sig_lagrangian from here), at
+            # every level ell
+            import sageopt.relaxations.sage_sigs as ss
+            captured, orig_mk = [], ss.make_sig_lagrangian
+
+            def cap(*a, **k):
+                out = orig_mk(*a, **k)
+                captured.append(out)
+                return out
+            ss.make_sig_lagrangian = cap
+            try:
+                prob = so.sig_constrained_relaxation(f, gts, eqs, X=X, form=form, **kw)
+            finally:
+                ss.make_sig_lagrangian = orig_mk
+            if captured and 'lagrangian' in prob.metadata:
+                L_, ineq_, eq_, gamma_ = captured[-1]
+                why = identity_oracle(c, rng, f, prob.metadata['lagrangian'], ineq_, eq_, gamma_)
+                ctx.count('audit:metadata-lagrangian')
+                if why:
+                    ctx.violation('Lagrangian identity (metadata[\'lagrangian\'] of the %s problem, ell = %d): %s' % (form, c['ell'], why),
+                                  {'stream': 'audit', 'form': form, 'case': c})
+            vals[form] = rm.solve_ecos(prob)
+    except Exception as e:  # noqa: BLE001
+        ctx.incon('audit: builder raised %s' % type(e).__name__)
+        return
+    ctx.case({'stream': 'audit', 'case': c})
+    ctx.count('stream:audit')
+    feas = []
+    for x in rm.box_points(rng, n, None, 200) + ([list(pinned)] if pinned else []):
+        if all(g(np.array(x)) >= 0 for g in gts) and all(abs(h(np.array(x))) <= 1e-9 for h in eqs):
+            feas.append(x)
+    if eqs:     # points on the equality constraint x_0 = log(c) by construction of the generator
+        x0 = math.log(float(F(c['eqs'][0]['c'][0])))
+        for x in rm.box_points(rng, n, None, 60):
+            y = [x0] + list(x[1:])
+            if all(g(np.array(y)) >= 0 for g in gts):
+                feas.append(y)
+    if not feas:
+        return
+    fmin = min(float(f(np.array(x))) for x in feas)
+    for form, (s, v) in vals.items():
+        if s != 'solved':
+            ctx.incon('audit: %s status %s' % (form, s))
+            continue
+        if math.isfinite(v) and v > fmin + 1e-5 * max(1.0, abs(fmin)):
+            x = min(feas, key=lambda z: float(f(np.array(z))))
+            ctx.violation('bound: the %s constrained relaxation value %.8g exceeds f(x) = %.8g at the feasible point %s' % (form, v, fmin, x),
+                          {'stream': 'audit', 'form': form, 'case': c, 'point': x})
+        if v == math.inf:
+            ctx.violation('bound: the %s relaxation reports +inf although a feasible point %s exists' % (form, feas[0]),
+                          {'stream': 'audit', 'form': form, 'case': c})
+    if all(k in vals and vals[k][0] == 'solved' for k in ('primal', 'dual')):
+        vp, vd = vals['primal'][1], vals['dual'][1]
+        if vp > vd + 1e-5 * max(1.0, abs(vd)) and not (math.isinf(vp) and math.isinf(vd)):
+            ctx.violation('weak duality: primal value %.8g exceeds dual value %.8g' % (vp, vd), {'stream': 'audit', 'case': c})
+
+
 def run(ctx):
     rng = ctx.rng
     ctx.lean = common.lean_check('C04')
     quick = ctx.quick()
+    common.run_regressions(ctx, 'C04', recheck)
     N = 60 if quick else 400
     cases = [gen_case(rng) for _ in range(N)]
     reals = []
@@ -212,78 +286,9 @@ def run(ctx):
         if why:
             ctx.violation('Lagrangian identity: ' + why, {'stream': 'lagrangian', 'case': c})
     # ---- audit of the solved relaxations
-    import sageopt as so
     naud = 25 if quick else 200
     for c in cases[:naud]:
-        n = c['f']['n']
-        f = st.build(c['f'])
-        gts = [st.build(g) for g in c['gts']]
-        eqs = [st.build(g) for g in c['eqs']]
-        X = None
-        try:
-            if c['infer'] and (gts or eqs):
-                X = so.infer_domain(f, gts, eqs)
-            vals = {}
-            for form in ('primal', 'dual'):
-                kw = {'p': c['p'], 'q': c['q'], 'ell': c['ell']}
-                if form == 'dual':
-                    kw['slacks'] = c['slacks']
-                # the Lagrangian the Problem exposes (metadata['lagrangian'], where users and solution recovery read it) satisfies the
-                # identity with the builder's own gamma and multipliers (captured by wrapping make_sig_lagrangian from here), at
-                # every level ell
-                import sageopt.relaxations.sage_sigs as ss
-                captured, orig_mk = [], ss.make_sig_lagrangian
-
-                def cap(*a, **k):
-                    out = orig_mk(*a, **k)
-                    captured.append(out)
-                    return out
-                ss.make_sig_lagrangian = cap
-                try:
-                    prob = so.sig_constrained_relaxation(f, gts, eqs, X=X, form=form, **kw)
-                finally:
-                    ss.make_sig_lagrangian = orig_mk
-                if captured and 'lagrangian' in prob.metadata:
-                    L_, ineq_, eq_, gamma_ = captured[-1]
-                    why = identity_oracle(c, rng, f, prob.metadata['lagrangian'], ineq_, eq_, gamma_)
-                    ctx.count('audit:metadata-lagrangian')
-                    if why:
-                        ctx.violation('Lagrangian identity (metadata[\'lagrangian\'] of the %s problem, ell = %d): %s' % (form, c['ell'], why),
-                                      {'stream': 'audit', 'form': form, 'case': c})
-                vals[form] = rm.solve_ecos(prob)
-        except Exception as e:  # noqa: BLE001
-            ctx.incon('audit: builder raised %s' % type(e).__name__)
-            continue
-        ctx.case({'stream': 'audit', 'case': c})
-        ctx.count('stream:audit')
-        feas = []
-        for x in rm.box_points(rng, n, None, 200):
-            if all(g(np.array(x)) >= 0 for g in gts) and all(abs(h(np.array(x))) <= 1e-9 for h in eqs):
-                feas.append(x)
-        if eqs:     # points on the equality constraint x_0 = log(c) by construction of the generator
-            x0 = math.log(float(F(c['eqs'][0]['c'][0])))
-            for x in rm.box_points(rng, n, None, 60):
-                y = [x0] + list(x[1:])
-                if all(g(np.array(y)) >= 0 for g in gts):
-                    feas.append(y)
-        if not feas:
-            continue
-        fmin = min(float(f(np.array(x))) for x in feas)
-        for form, (s, v) in vals.items():
-            if s != 'solved':
-                ctx.incon('audit: %s status %s' % (form, s))
-                continue
-            if math.isfinite(v) and v > fmin + 1e-5 * max(1.0, abs(fmin)):
-                x = min(feas, key=lambda z: float(f(np.array(z))))
-                ctx.violation('bound: the %s constrained relaxation value %.8g exceeds f(x) = %.8g at the feasible point %s' % (form, v, fmin, x),
-                              {'stream': 'audit', 'form': form, 'case': c, 'point': x})
-            if v == math.inf:
-                ctx.violation('bound: the %s relaxation reports +inf although a feasible point %s exists' % (form, feas[0]),
-                              {'stream': 'audit', 'form': form, 'case': c})
-        if all(k in vals and vals[k][0] == 'solved' for k in ('primal', 'dual')):
-            vp, vd = vals['primal'][1], vals['dual'][1]
-            if vp > vd + 1e-5 * max(1.0, abs(vd)) and not (math.isinf(vp) and math.isinf(vd)):
-                ctx.violation('weak duality: primal value %.8g exceeds dual value %.8g' % (vp, vd), {'stream': 'audit', 'case': c})
+        audit_case(ctx, rng, c)
     if (not ctx.lean.ok or ctx.disagreements) and not ctx.violations:
         common.broken_report(ctx, 'Lagrangian identity and bound audits found no failing input among %d cases' % N)
     return ctx.finish(
@@ -292,6 +297,23 @@ def run(ctx):
              'inferred; Lagrangian compared at representation level and by random assignments; audit on sampled feasible points; '
              'non-trivial = at least one constraint; distinct = distinct JSON',
         trusted=TRUSTED, assumptions=ASSUME)
+
+
+def recheck(r):
+    """execute the stored input of a violation again; the violation it (still) shows, or None"""
+    import random
+    ctx, rng = common.RecCtx(), random.Random(0)
+    c = r['case']
+    if r.get('stream') == 'audit':
+        audit_case(ctx, rng, c, pinned=r.get('point'))
+        return ctx.first()
+    if r.get('stream') == 'lagrangian':
+        f, gts, eqs, L, ineq, eq, gamma = lagrangian_real(c)
+        for _ in range(3):
+            why = identity_oracle(c, rng, f, L, ineq, eq, gamma)
+            if why:
+                return 'Lagrangian identity: ' + why
+    return None
 
 
 def replay(obj):
